@@ -7,7 +7,7 @@ import itertools
 
 (ID, BOX, MK, THEN, TENSOR, DAGGER, SLICE, SLICEREV, GETITEM, INTERCHANGE,
  NORMALIZE, NORMALFORM, SWAP, PERMUTATION, PERMUTE, CUPS, CAPS, TRANSPOSE,
- FUNCTOR) = range(19)
+ FUNCTOR, FOLIATE, FOLIATION) = range(21)
 KBOX, KSWAP, KCUP, KCAP = 0, 1, 2, 3
 
 
@@ -135,8 +135,10 @@ class G:
             return [INTERCHANGE, p, idx(), idx(), rng.randint(0, 1)]
         if r < 0.70:
             return [NORMALIZE, p, rng.randint(0, 1)]
-        if r < 0.78:
+        if r < 0.76:
             return [NORMALFORM, p, rng.randint(0, 1)]
+        if r < 0.78:
+            return [rng.choice([FOLIATE, FOLIATION]), p]
         if r < 0.84:
             perm = list(range(len(dom)))
             rng.shuffle(perm)
